@@ -175,7 +175,11 @@ func judge(ep int, data []byte, allocBound bool) (f fail, outcome string) {
 	if d.Stream() != fields.Stream() || d.Function() != fields.Function() || d.WaitBit() != fields.W() {
 		return bad("header-fields:data-sfw", "%s result S%dF%d W=%v, frame has S%dF%d W=%v", name, d.Stream(), d.Function(), d.WaitBit(), fields.Stream(), fields.Function(), fields.W()), ""
 	}
-	bf, bo := judgeBody(d, body, len(data))
+	salt := len(data)
+	for _, b := range data[:min(len(data), 64)] {
+		salt = salt*31 + int(b)
+	}
+	bf, bo := judgeBody(d, body, salt&0xFFFF)
 	return bf, "accept:data:" + bo
 }
 
@@ -195,7 +199,7 @@ func judgeBody(d *hsms.DataMessage, body []byte, salt int) (fail, string) {
 	holders = append(holders, holders[1].WithID(5)) // a copy of a copy
 	hname := []string{"original", "WithSessionID copy", "WithSystemBytes copy", "WithID copy", "copy of a copy"}
 
-	// who asks first, and how, varies with the case (all four patterns occur for every seed)
+	// who asks first, and how, varies with the case (a function of the input bytes: all four patterns occur among the mutations of every seed)
 	var first error
 	var firstBy string
 	switch salt % 4 {
@@ -217,11 +221,11 @@ func judgeBody(d *hsms.DataMessage, body []byte, salt int) (fail, string) {
 		for call := 1; call <= 3; call++ {
 			it, e1 := h.Item()
 			if !sameErr(first, e1) {
-				return bad("body-error-differs:Item", "%s.Item() call %d returned error %q, the first answer (%s) was %q", hname[hi], call, errStr(e1), firstBy, errStr(first)), ""
+				return bad("body-error-differs:Item", "%s.Item() call %d returned error %q, the first answer (%s) was %q%s", hname[hi], call, errStr(e1), firstBy, errStr(first), differHow(first, e1)), ""
 			}
 			e2 := h.DecodeErr()
 			if !sameErr(first, e2) {
-				return bad("body-error-differs:DecodeErr", "%s.DecodeErr() call %d returned %q, the first answer (%s) was %q", hname[hi], call, errStr(e2), firstBy, errStr(first)), ""
+				return bad("body-error-differs:DecodeErr", "%s.DecodeErr() call %d returned %q, the first answer (%s) was %q%s", hname[hi], call, errStr(e2), firstBy, errStr(first), differHow(first, e2)), ""
 			}
 			if first == nil {
 				if it == nil {
@@ -229,7 +233,7 @@ func judgeBody(d *hsms.DataMessage, body []byte, salt int) (fail, string) {
 				}
 				if firstItem == nil {
 					firstItem = it
-				} else if !secs2.Equal(firstItem, it) || !bytes.Equal(firstItem.ToBytes(), it.ToBytes()) {
+				} else if it != firstItem && (!secs2.Equal(firstItem, it) || len(body) < 1<<16 && !bytes.Equal(firstItem.ToBytes(), it.ToBytes())) {
 					return bad("item-differs", "%s.Item() call %d returned a different item than the first call", hname[hi], call), ""
 				}
 			}
@@ -267,6 +271,14 @@ func judgeBody(d *hsms.DataMessage, body []byte, salt int) (fail, string) {
 	}
 }
 
+// differHow says in which sense two body errors differ.
+func differHow(a, b error) string {
+	if a != nil && b != nil && a.Error() == b.Error() {
+		return " — same text but not the same error value (a new error per call)"
+	}
+	return ""
+}
+
 func errStr(e error) string {
 	if e == nil {
 		return "<nil>"
@@ -284,7 +296,7 @@ func clip(b []byte) []byte {
 // ─── enumeration ─────────────────────────────────────────────────────────────────
 
 const ruleDecode = "E1 decode: seed corpus of 60 well-formed frames (data frames with no/valid/invalid bodies incl. truncated item, unknown format code, zero length-bytes, trailing bytes, over-deep nesting, huge claimed sizes; control frames of every SType with and without text) x {every truncation, +1/+2 appended bytes, every single-byte mutation (position x 256 values), every rewrite of the 4-byte length field over {0..12, n-1, n, n+1, 2^16, cap, cap+1, 2^31-1, 2^31, 2^32-1} with the allocation of the call bounded by 1 MiB} x entry points {DecodeHSMSMessage(frame), DecodeHSMSPayload(frame[4:]), DecodeOwnedHSMSPayload(clone)}; " +
-	"all byte strings of length <= 2; all 14-byte frames whose (PType, SType) range over all 65536 pairs (correct length field, 2 fillings of the other header bytes); frames of exactly cap and cap+1 bytes; thorough: every two-byte mutation of 6 seeds over 12 values. " +
+	"all byte strings of length <= 2 (thorough: <= 3); all 14-byte frames whose (PType, SType) range over all 65536 pairs (correct length field, 2 fillings of the other header bytes); all 14-byte frames of each defined SType x all 65536 (byte 2, byte 3) pairs; all data frames whose text is any byte string of length 1..2 (thorough: 1..3); frames of exactly cap and cap+1 bytes; thorough: every two-byte mutation (65536 value pairs) of the 14 length+header bytes of 3 seeds, and every two-byte mutation of 6 seeds over 12 values. " +
 	"Oracle: no panic; accepted iff ref/e37 accepts (length field = remaining bytes, in [10, cap], PType 0, defined SType; payload entry points: 10 <= size <= cap); accepted messages expose the frame's header fields; for a data frame the body verdict (ref/e5 grammar, depth limit 64) is reported identically by Item()/DecodeErr() x 3 calls x 5 holders (original, WithSessionID, WithSystemBytes, WithID copies, copy of a copy), whoever asks first. non-trivial = the input differs from its seed frame"
 
 var rewriteVals = func(n uint32) []uint64 {
@@ -459,6 +471,48 @@ func partDecode(c *vfw.Ctx) {
 		}
 	}
 
+	// every (byte 2, byte 3) pair under every defined SType: the header fields are exposed as received
+	for _, st := range []byte{0, 1, 2, 3, 4, 5, 6, 7, 9} {
+		x := []byte{0, 0, 0, 10, 0x01, 0x02, 0, 0, 0, st, 0x0A, 0x0B, 0x0C, 0x0D}
+		for b2 := 0; b2 < 256; b2++ {
+			for b3 := 0; b3 < 256; b3++ {
+				x[6], x[7] = byte(b2), byte(b3)
+				run(epMessage, x, false, true)
+				run(epPayload, x[4:], false, true)
+				run(epOwned, x[4:], false, true)
+			}
+		}
+	}
+
+	// every data frame whose text is any byte string of length 1..2 (thorough: ..3)
+	maxBody := 2
+	if c.Thorough() {
+		maxBody = 3
+	}
+	for bl := 1; bl <= maxBody; bl++ {
+		x := e37.Frame(e37.DataFields(0x0102, 1, 1, true, sys(0x01020304)), make([]byte, bl))
+		total := 1 << (8 * uint(bl))
+		for v := 0; v < total; v++ {
+			for i := 0; i < bl; i++ {
+				x[14+i] = byte(v >> (8 * uint(bl-1-i)))
+			}
+			run(epMessage, x, false, true)
+			run(epPayload, x[4:], false, true)
+			run(epOwned, x[4:], false, true)
+		}
+	}
+
+	// thorough: all byte strings of length 3
+	if c.Thorough() {
+		x := make([]byte, 3)
+		for v := 0; v < 1<<24; v++ {
+			x[0], x[1], x[2] = byte(v>>16), byte(v>>8), byte(v)
+			for ep := 0; ep < 3; ep++ {
+				run(ep, x, false, true)
+			}
+		}
+	}
+
 	// frames at the size cap
 	for _, sp := range specialNames {
 		for ep := 0; ep < 3; ep++ {
@@ -474,6 +528,30 @@ func partDecode(c *vfw.Ctx) {
 	}
 
 	if c.Thorough() {
+		// every two-byte mutation (all 65536 value pairs) of the length field and header of 3 seeds
+		for _, si := range []int{1, 15, 33} {
+			fr := seeds[si].frame
+			x := bytes.Clone(fr)
+			for p := 0; p < 14; p++ {
+				for q := p + 1; q < 14; q++ {
+					for a := 0; a < 256; a++ {
+						x[p] = byte(a)
+						for b := 0; b < 256; b++ {
+							x[q] = byte(b)
+							nt := x[p] != fr[p] || x[q] != fr[q]
+							run(epMessage, x, false, nt)
+							if p >= 4 {
+								run(epPayload, x[4:], false, nt)
+								run(epOwned, x[4:], false, nt)
+							}
+						}
+					}
+					x[q] = fr[q]
+				}
+				x[p] = fr[p]
+			}
+		}
+		// every two-byte mutation of 6 seeds (all position pairs incl. the text) over 12 values
 		vals := []byte{0x00, 0x01, 0x02, 0x07, 0x08, 0x09, 0x0A, 0x0B, 0x41, 0x7F, 0x80, 0xFF}
 		for _, si := range []int{0, 1, 4, 15, 30, 44} {
 			fr := seeds[si].frame
